@@ -500,6 +500,76 @@ func (e *env) runEnc(id, tier string) {
 		e.emit("S\tCFG\t%s\t%s\t%s", c.name, c.want, got)
 		_ = conn.Delete(k)
 	}
+	// the wiring model (Lean: C17.fromURL / C17.withEncryption) against fscache.fromURL on a grid of
+	// encrypt spellings × DSN key class × environment key class; the model says what each open must yield
+	keyOf := func(class string, n int) string {
+		switch class {
+		case "good":
+			return encKey
+		case "bad":
+			if n%2 == 0 {
+				return "!!!"
+			}
+			return "QUJD"
+		}
+		return ""
+	}
+	dash := func(s string) string {
+		if s == "" {
+			return "-"
+		}
+		return s
+	}
+	observe := func(i int, conn driver.Conn, err error) string {
+		if err != nil || conn == nil {
+			return "fail"
+		}
+		k := "cfgm-" + strconv.Itoa(i)
+		v := bytes.Repeat([]byte("PLAINTEXT-GRID-"+strconv.Itoa(i)+"-"), 8)
+		_ = conn.Set(k, v)
+		got := "enc"
+		for _, b := range e.readAllFiles() {
+			if containsFragment(b, v) {
+				got = "plain"
+			}
+		}
+		_ = conn.Delete(k)
+		return got
+	}
+	n := 0
+	for _, sp := range []string{"", "off", "on", "aesgcm", "ON", "On", "true", "1", "aes-gcm", "no", "yes", "AESGCM", "offf"} {
+		for _, dk := range []string{"", "good", "bad"} {
+			for _, ek := range []string{"", "good", "bad"} {
+				n++
+				dsn := dsnBase
+				if sp != "" || n%2 == 0 {
+					dsn += "&encrypt=" + url.QueryEscape(sp)
+				}
+				if dk != "" || n%3 == 0 {
+					dsn += "&encrypt_key=" + url.QueryEscape(keyOf(dk, n))
+				}
+				if ek != "" {
+					os.Setenv("FSCACHE_ENCRYPT_KEY", keyOf(ek, n))
+				} else {
+					os.Unsetenv("FSCACHE_ENCRYPT_KEY")
+				}
+				conn, err := store.Open(dsn)
+				os.Unsetenv("FSCACHE_ENCRYPT_KEY")
+				e.emit("S\tCFGM\tdsn\t%s\t%s\t%s\t%s", dash(sp), dash(dk), dash(ek), observe(n, conn, err))
+			}
+		}
+	}
+	for _, kc := range []string{"", "good", "bad"} {
+		for _, ek := range []string{"", "good"} { // the option never consults the environment
+			n++
+			if ek != "" {
+				os.Setenv("FSCACHE_ENCRYPT_KEY", keyOf(ek, n))
+			}
+			conn, err := fscache.Open("verif", fscache.WithBaseDir(e.dir), fscache.WithEncryption(keyOf(kc, n)))
+			os.Unsetenv("FSCACHE_ENCRYPT_KEY")
+			e.emit("S\tCFGM\toption\t-\t%s\t%s\t%s", dash(kc), dash(ek), observe(n, conn, err))
+		}
+	}
 	// values: no plaintext fragment in any file; same value twice → different ciphertexts
 	conn, err := fscache.Open("verif", fscache.WithBaseDir(e.dir), fscache.WithEncryption(encKey))
 	if err != nil {
